@@ -4,7 +4,7 @@
    Emitting = TRUE the final state of every behaviour is printed ([env, obs]) and replayed on the real application.  *)
 EXTENDS AppRun, Json, TLC
 
-CONSTANTS Apps, Catching, Verbs, MCLines, Pres, MaxListeners, ListenerKinds, ListenerValues, OutValues, OutKinds, MCScopes, Emitting
+CONSTANTS Apps, Catching, Verbs, MCLines, Pres, MaxListeners, ListenerKinds, ListenerValues, OutValues, OutKinds, MCScopes, MCRoutes, MCExits, Emitting
 
 VARIABLE st
 
@@ -14,7 +14,7 @@ OnlyTrue == {TRUE}
 Verbs4 == 0..3
 Verbs2 == {0, 3}
 Verbs1 == {0}
-LinesOK == {"alpha_x", "alpha_x_flag", "beta", "beta_gamma_y", "beta_gamma_y_num"}
+LinesOK == {"alpha_x", "alpha_x_flag", "beta", "beta_gamma_y", "beta_gamma_y_num", "empty"}
 LinesTwo == {"alpha_x_flag", "beta_gamma_y_num"}
 LinesOne == {"alpha_x"}
 LinesAll == Lines
@@ -29,7 +29,10 @@ ValuesL == {"0", "s3", "300"}
 NoKinds == {}
 NoValues == {}
 
-ListenerSet == {[b |-> "pass", v |-> "", k |-> ""]}
+RoutesAll == {"object", "factory", "method"}
+RoutesOne == {"object"}
+ExitsNo == {FALSE}
+ListenerSet == {[b |-> "pass", v |-> "", k |-> ""], [b |-> "noise", v |-> "", k |-> ""]}
                \cup {[b |-> "handle", v |-> v, k |-> ""] : v \in ListenerValues}
                \cup {[b |-> "raise", v |-> "", k |-> k] : k \in ListenerKinds}
 ListenerSeqs == UNION {[1..n -> ListenerSet] : n \in 0..MaxListeners}
@@ -39,9 +42,11 @@ ScopesAll == Scopes
 ScopesTwo == {"top", "indent"}
 ScopesTop == {"top"}
 \* one initial state per environment of the product (nested quantifiers: the product itself is never built as a set)
-Init == \E a \in Apps, c \in Catching, v \in Verbs, ln \in MCLines, p \in Pres, ls \in ListenerSeqs, o \in Outcomes, sc \in MCScopes :
-          /\ ~(ln = "nosuch" /\ a = "default")
-          /\ st = Start([app |-> a, catch |-> c, verb |-> v, line |-> ln, pre |-> p, listeners |-> ls, outcome |-> o, scope |-> sc])
+Init == \E a \in Apps, c \in Catching, v \in Verbs, ln \in MCLines, p \in Pres, ls \in ListenerSeqs, o \in Outcomes, sc \in MCScopes,
+             hr \in MCRoutes, ex \in MCExits :
+          /\ ~(ln \in {"nosuch", "empty"} /\ a = "default")
+          /\ st = Start([app |-> a, catch |-> c, verb |-> v, line |-> ln, pre |-> p, listeners |-> ls, outcome |-> o, scope |-> sc,
+                        hroute |-> hr, exit |-> ex])
 CreateIO == st.phase = "start" /\ st' = Step(st)
 PreResolve == st.phase = "ioReady" /\ st' = Step(st)
 Resolve == st.phase = "preResolved" /\ st' = Step(st)
@@ -68,5 +73,5 @@ FoldAgrees == Done => Outcome(st.env) = st
 AtMostOneCall == Len(st.calls) <= 1
 Terminates == <>Done
 Emit == (Done /\ Emitting) => PrintT(ToJson([env |-> st.env, obs |-> [status |-> st.status, escaped |-> st.escaped, calls |-> st.calls,
-                                                                    reported |-> st.reported, simple |-> st.simple]]))
+                                                                    reported |-> st.reported \/ st.noisy, simple |-> st.simple]]))
 =============================================================================
